@@ -28,6 +28,7 @@ import (
 type replayInput struct{ Name, Expr string }
 
 type replayDriver struct {
+	Race     bool // run the replay under the race detector
 	Pkg      string
 	Inputs   []replayInput
 	Template string
@@ -53,6 +54,8 @@ func loadDriver(verifDir, fn string) *replayDriver {
 		switch {
 		case strings.HasPrefix(line, "//replay:pkg "):
 			d.Pkg = strings.TrimSpace(strings.TrimPrefix(line, "//replay:pkg "))
+		case strings.HasPrefix(line, "//replay:race"):
+			d.Race = true
 		case strings.HasPrefix(line, "//replay:kinds "):
 			d.Kinds = strings.Fields(strings.TrimPrefix(line, "//replay:kinds "))
 		case strings.HasPrefix(line, "//replay:input "):
@@ -189,7 +192,7 @@ func goLiteral(v string) string {
 	return v
 }
 
-func runReplayTest(repo, pkg, src string, timeoutS int) (string, error) {
+func runReplayTest(repo, pkg, src string, timeoutS int, race bool) (string, error) {
 	dir, err := os.MkdirTemp("", "govc-replay")
 	if err != nil {
 		return "", err
@@ -201,7 +204,12 @@ func runReplayTest(repo, pkg, src string, timeoutS int) (string, error) {
 	js, _ := json.Marshal(ov)
 	ovFile := filepath.Join(dir, "ov.json")
 	os.WriteFile(ovFile, js, 0644)
-	cmd := exec.Command("go", "test", "-tags", "test", "-overlay", ovFile, "-vet=off", "-count=1", "-v", fmt.Sprintf("-timeout=%ds", timeoutS), "-run", "TestZZReplay", "./"+pkg+"/")
+	args := []string{"test", "-tags", "test", "-overlay", ovFile, "-vet=off", "-count=1", "-v", fmt.Sprintf("-timeout=%ds", timeoutS), "-run", "TestZZReplay"}
+	if race {
+		args = append(args, "-race")
+	}
+	args = append(args, "./"+pkg+"/")
+	cmd := exec.Command("go", args...)
 	cmd.Dir = repo
 	cmd.Env = append(os.Environ(), "GOFLAGS=-mod=mod", "GOPROXY=off", "GOSUMDB=off", "GOTOOLCHAIN=local", "TMPDIR="+dir)
 	done := make(chan struct{})
@@ -250,8 +258,8 @@ func tryReplay(cr *checkRun, o *Obl) (string, bool) {
 		}
 		src = strings.ReplaceAll(src, "{{"+in.Name+"}}", goLiteral(v))
 	}
-	out, _ := runReplayTest(cr.repo, d.Pkg, src, 60)
-	confirmed := strings.Contains(out, "REPLAY-CONFIRMED")
+	out, _ := runReplayTest(cr.repo, d.Pkg, src, 120, d.Race)
+	confirmed := strings.Contains(out, "REPLAY-CONFIRMED") || (d.Race && strings.Contains(out, "WARNING: DATA RACE"))
 	var b strings.Builder
 	fmt.Fprintf(&b, "model: %v\n--- generated test ---\n%s\n--- go test output ---\n%s", vals, src, out)
 	return b.String(), confirmed
